@@ -1,2 +1,287 @@
--- line-protocol model driver for C11 (stub)
-def main : IO Unit := IO.println "stub C11"
+/- Line-protocol model driver for C11 (parser + %j printer).  Mirrors harness/C11/pharness.c op for op.
+     case <hexbytes|-> <op,op,...> <tokhex=res,tokhex=res,...|->   ->  "<events>| <trace>| <token scans>"
+     jdn <term tokens...>                                           ->  hex of the %j text | refused | skip
+-/
+import Driver.Util
+import JanetModel.Parse.Model
+import JanetModel.PP.Jdn
+open Driver JanetModel.Parse JanetModel.PP JanetModel.Gen.Parse
+
+def hexOfB (bs : List B) : String := hexOfBytes (bs.map (·.toNat))
+
+def lowerHexNat (n : Nat) : String := String.ofList (Nat.toDigits 16 n)
+
+/-- canonical value printer; same format as `canon` in pharness.c -/
+partial def canon (sm : Bool) : Value → String
+  | .nil => "nil"
+  | .bool true => "true"
+  | .bool false => "false"
+  | .num t => t
+  | .str b => "s" ++ hexOfB b
+  | .sym b => "y" ++ hexOfB b
+  | .kw b => "k" ++ hexOfB b
+  | .buf b => "b" ++ hexOfB b
+  | .tuple br l c items =>
+    let parts := (if sm then [s!"{l}:{c}"] else []) ++ items.map (canon sm)
+    (if br then "[" else "(") ++ " ".intercalate parts ++ (if br then "]" else ")")
+  | .array items => "@[" ++ " ".intercalate (items.map (canon sm)) ++ "]"
+  | .struct ks vs => "{" ++ dict sm ks vs ++ "}"
+  | .table ks vs => "@{" ++ dict sm ks vs ++ "}"
+where
+  dict (sm : Bool) (ks vs : List Value) : String :=
+    let ents := (ks.zip vs).map (fun kv => (canon false kv.1 ++ "\x01" ++ canon sm kv.1 ++ " " ++ canon sm kv.2, canon sm kv.1 ++ " " ++ canon sm kv.2))
+    let sorted := ents.toArray.qsort (fun a b => a.1 < b.1)
+    " ".intercalate (sorted.toList.map (·.2))
+
+def sanitize (s : String) : String :=
+  String.ofList (s.toList.map (fun ch => if ch.toNat > 32 && ch.toNat < 127 && ch != '|' then ch else '_'))
+
+structure DRun where
+  p : Parser
+  bytes : Array B
+  pos : Nat
+  eofoff : Nat
+  rawerr : Bool
+  nvalues : Nat
+  ev : Array String
+  tr : Array String
+  numlog : Array String
+
+abbrev Scan := List B → Option String
+
+def DRun.label (r : DRun) : Nat := r.pos + r.eofoff
+
+def trStatus (r : DRun) (key : String) : DRun :=
+  { r with tr := r.tr.push s!"@{r.label}:{key}={(status r.p).name}" }
+
+def trWhere (r : DRun) (key : String) : DRun :=
+  { r with tr := r.tr.push s!"@{r.label}:{key}={r.p.line}:{r.p.column}" }
+
+def produce1 (r : DRun) (wrapped : Bool) : DRun :=
+  if wrapped then
+    match produceWrapped r.p with
+    | (some (.tuple _ l c [v]), p) =>
+      { r with p := p, tr := r.tr.push s!"@wrap#{r.nvalues}={l}:{c}", ev := r.ev.push ("v:" ++ canon true v), nvalues := r.nvalues + 1 }
+    | (_, p) => { r with p := p, ev := r.ev.push "v:BADWRAP" }
+  else
+    match produce r.p with
+    | (some v, p) => { r with p := p, ev := r.ev.push ("v:" ++ canon true v), nvalues := r.nvalues + 1 }
+    | (none, p) => { r with p := p, ev := r.ev.push ("v:nil"), nvalues := r.nvalues + 1 }
+
+def drainD (r : DRun) : DRun := Id.run do
+  let mut r := r
+  let mut k := 0
+  for _ in [0:r.p.pending + 1] do
+    if hasMore r.p then
+      r := produce1 r (k % 2 == 1)
+      k := k + 1
+  return r
+
+def handleErrorD (r : DRun) : DRun :=
+  let r := trStatus r "es"
+  let r := trWhere r "ew"
+  let r := if r.rawerr then r else drainD r
+  let r := trStatus r "es2"
+  let (e, p) := takeError r.p
+  let r := { r with p := p, ev := r.ev.push ("e:" ++ (match e with | some m => sanitize m | none => "NOT-A-STRING") ++ s!"@{r.label}") }
+  let r := trStatus r "es3"
+  let (e2, p2) := takeError r.p
+  { r with p := p2, ev := if e2.isSome then r.ev.push "e:SECOND-ERROR" else r.ev }
+
+def trPanic (r : DRun) (key msg : String) : DRun :=
+  { r with tr := r.tr.push s!"@{r.label}:{key}=panic:{sanitize msg}" }
+
+/-- the scan the real `tokenchar` performs when byte `c` ends a number-looking token -/
+def logScan (scan : Scan) (r : DRun) (c : B) : DRun :=
+  match r.p.states with
+  | top :: _ =>
+    if top.consumer == .tokenchar && !isSymbolChar c then
+      let b0 := r.p.buf.headD 0
+      let startNum := (48 ≤ b0.toNat && b0.toNat ≤ 57) || b0 == 45 || b0 == 43 || b0 == 46
+      if startNum && b0 != 58 then
+        { r with numlog := r.numlog.push (hexOfB r.p.buf ++ "=" ++ (match scan r.p.buf with | some t => t | none => "x")) }
+      else r
+    else r
+  | [] => r
+
+/-- one byte through janet_parser_consume (no dead check here) + status check + error protocol -/
+def byteD (scan : Scan) (r : DRun) (c : B) : DRun :=
+  let r := logScan scan r c
+  let r := { r with p := consumeRaw scan r.p c, pos := r.pos + 1 }
+  if (status r.p) == .error then handleErrorD r else r
+
+def opFeed (scan : Scan) (r : DRun) (n : Nat) (key : String) : DRun := Id.run do
+  let stop := min (r.pos + n) r.bytes.size
+  let mut r := r
+  for _ in [0:n] do
+    if r.pos < stop then
+      if key == "j" then
+        let st := status r.p
+        if st == .dead || st == .error then
+          r := { r with tr := r.tr.push s!"@{r.label}:j={st.name}", pos := stop }
+        else r := byteD scan r (r.bytes[r.pos]!)
+      else
+        match checkDead r.p with
+        | some msg => r := { trPanic r key msg with pos := stop }
+        | none => r := byteD scan r (r.bytes[r.pos]!)
+  return r
+
+def trState (r : DRun) : DRun :=
+  let fr := r.p.states.reverse
+  let per := String.join (fr.map (fun s => s!":{frameType s},{s.line},{s.column}"))
+  { r with tr := r.tr.push (s!"@{r.label}:t={fr.length}:" ++ hexOfB (delimiters r.p) ++ per) }
+
+def consName : Consumer → String
+  | .root => "root" | .tokenchar => "tok" | .stringchar => "str" | .escape1 => "esc1" | .escapeh => "esch" | .escapeu => "escu"
+  | .longstring => "long" | .comment => "cmt" | .atsign => "at"
+
+def trInternals (r : DRun) : DRun :=
+  let p := r.p
+  let fr := p.states.reverse
+  let n := fr.length
+  let per := String.join ((fr.zip (List.range n)).map (fun (s, i) =>
+    let argn : Int := if i == 0 then (s.argn : Int) - (p.pending : Int) else (s.argn : Int)
+    s!":{consName s.consumer},{lowerHexNat s.flags},{s.counter},{argn},{s.line},{s.column}"))
+  { r with tr := r.tr.push (s!"@{r.label}:i={p.line}:{p.column}:{p.lookback}:{p.flag}:{n}:{p.buf.length}:" ++ hexOfB p.buf ++ per ++
+      s!":a{(p.args.length : Int) - (p.pending : Int)}") }
+
+def opEof (scan : Scan) (r : DRun) : DRun :=
+  match checkDead r.p with
+  | some msg => trPanic r "E" msg
+  | none =>
+    let r := logScan scan r 10
+    let r := { r with p := eof scan r.p, eofoff := 1000000 }
+    let r := if status r.p == .error then handleErrorD r else r
+    trStatus r "E"
+
+def runOp (scan : Scan) (r : DRun) (op : Char) (n : Nat) : DRun :=
+  match op with
+  | 'c' => opFeed scan r n "c"
+  | 'C' => opFeed scan r n "c"
+  | 'u' => opFeed scan r n "c"
+  | 'b' => opFeed scan r n "b"
+  | 'j' => opFeed scan r n "j"
+  | 'k' => { r with p := clone r.p }
+  | 'K' => r
+  | 's' => trStatus r "s"
+  | 'w' => trWhere r "w"
+  | 't' => trState r
+  | 'i' => trInternals r
+  | 'h' => { r with tr := r.tr.push (if hasMore r.p then "h=1" else "h=0") }
+  | 'p' => if hasMore r.p then produce1 r false else { r with tr := r.tr.push "p=nil" }
+  | 'P' => if hasMore r.p then produce1 r true else { r with tr := r.tr.push "P=none" }
+  | 'D' => drainD r
+  | 'e' =>
+    let (e, p) := takeError r.p
+    { r with p := p, tr := r.tr.push (s!"@{r.label}:e=" ++ (if e.isSome then "NOTNIL" else "nil")) }
+  | 'f' => let r := drainD r; { r with p := flush r.p }
+  | 'F' => { r with p := flush r.p }
+  | 'R' => { r with rawerr := true }
+  | 'E' => opEof scan r
+  | 'G' => r
+  | _ => { r with tr := r.tr.push s!"BADOP{op}" }
+
+def parseTable (s : String) : List (String × String) :=
+  if s == "-" then [] else
+  (s.splitOn ",").filterMap (fun e => match e.splitOn "=" with
+    | [a, b] => some (a, b)
+    | _ => none)
+
+def mkScan (tab : List (String × String)) : Scan := fun bs =>
+  match tab.lookup (hexOfB bs) with
+  | some "x" => none
+  | some t => some t
+  | none => some "?unknown-token"
+
+def runCase (hex sched tab : String) : String :=
+  match bytesOfHex (if hex == "-" then "" else hex) with
+  | none => "bad-op"
+  | some bs =>
+    let scan := mkScan (parseTable tab)
+    let r0 : DRun := { p := Parser.init, bytes := (bs.map (·.toUInt8)).toArray, pos := 0, eofoff := 0, rawerr := false, nvalues := 0, ev := #[], tr := #[], numlog := #[] }
+    let ops := (sched.splitOn ",").filter (· ≠ "")
+    let r := ops.foldl (fun r o =>
+      match o.toList with
+      | [] => r
+      | c :: rest => runOp scan r c ((String.ofList rest).toNat?.getD 0)) r0
+    let join (a : Array String) : String := String.join (a.toList.map (· ++ " "))
+    join r.ev ++ "| " ++ join r.tr ++ "| " ++ String.join (r.numlog.toList.map (· ++ ","))
+
+/-! ### jdn terms -/
+
+def unhexB (s : String) : List B := ((bytesOfHex s).getD []).map (·.toUInt8)
+
+partial def buildTerm : List String → Option (Value × List String)
+  | [] => none
+  | t :: rest =>
+    let body := String.ofList (t.toList.drop 1)
+    match t.toList.head? with
+    | some 'N' => some (.nil, rest)
+    | some 'T' => some (.bool true, rest)
+    | some 'F' => some (.bool false, rest)
+    | some 'n' => some (.num t, rest)
+    | some 's' => some (.str (unhexB body), rest)
+    | some 'y' => some (.sym (unhexB body), rest)
+    | some 'k' => some (.kw (unhexB body), rest)
+    | some 'b' => some (.buf (unhexB body), rest)
+    | some kind =>
+      if kind == 't' || kind == 'a' || kind == 'd' || kind == 'm' then
+        let rec items (toks : List String) (acc : List Value) : Option (List Value × List String) :=
+          match toks with
+          | [] => some (acc.reverse, [])
+          | x :: xs => if x == ")" || x == "]" || x == "}" then some (acc.reverse, xs) else
+            match buildTerm (x :: xs) with
+            | some (v, r) => items r (v :: acc)
+            | none => none
+        match items rest [] with
+        | none => none
+        | some (vs, r) =>
+          if kind == 't' then some (.tuple (t == "t[") 0 0 vs, r)
+          else if kind == 'a' then some (.array vs, r)
+          else if kind == 'd' then let (k, v) := buildDict structPut vs ([], []); some (.struct k v, r)
+          else let (k, v) := buildDict tablePut vs ([], []); some (.table k v, r)
+      else none
+    | none => none
+
+partial def bigDict : Value → Bool
+  | .struct ks vs => ks.length > 1 || ks.any bigDict || vs.any bigDict
+  | .table ks vs => ks.length > 1 || ks.any bigDict || vs.any bigDict
+  | .tuple _ _ _ l => l.any bigDict
+  | .array l => l.any bigDict
+  | _ => false
+
+partial def needsScan : Value → Bool
+  | .sym bs => let b0 := bs.headD 0; b0 == 45 || b0 == 43 || b0 == 46
+  | .struct ks vs => ks.any needsScan || vs.any needsScan
+  | .table ks vs => ks.any needsScan || vs.any needsScan
+  | .tuple _ _ _ l => l.any needsScan
+  | .array l => l.any needsScan
+  | _ => false
+
+def containsSub (s sub : String) : Bool := (s.splitOn sub).length > 1
+
+/-- number text: the term carries it (`n<bits>:<text>`); NaN / infinities are refused by the printer -/
+def fmtOfTag (tag : String) : Option (List B) :=
+  match tag.splitOn ":" with
+  | [_, txt] => if containsSub txt "nan" || containsSub txt "inf" then none else some (strBytes txt)
+  | _ => none
+
+def runJdn (toks : List String) : String :=
+  match buildTerm toks with
+  | none => "bad-op"
+  | some (v, _) =>
+    if bigDict v || (ppRefusesMisreadSymbols && needsScan v) then "skip" else
+    -- symbols that look like numbers need the scanner: not available here -> only when the source refuses them
+    match jdn (fun _ => some "?") fmtOfTag 1024 v with
+    | some bs => if bs.isEmpty then "-" else hexOfB bs
+    | none => "refused"
+
+def stepLine (_ : Unit) (toks : List String) : Unit × String :=
+  match toks with
+  | ["case", h, s, t] => ((), runCase h s t)
+  | ["case", h, s] => ((), runCase h s "-")
+  | ["case", h] => ((), runCase h "" "-")
+  | "jdn" :: rest => ((), runJdn rest)
+  | _ => ((), "bad-op")
+
+def main : IO Unit := runLoop () stepLine
